@@ -198,6 +198,16 @@ def main(argv=None):
         return report.relock(run_symbolic, ALL_PROPS)
     if args.prop == 'setup':
         return setup()
+    if args.prop == 'all':
+        # screening mode for the seeded / harmless suites: one symbolic run of every task with every property's
+        # clauses, then the per-property aggregation (the registered commands are the per-property ones)
+        cached = run_symbolic(None, args.tier, load_lock(), args.jobs)
+        worst = 0
+        for p in ALL_PROPS:
+            code = report.check_property(p, args.tier, int(os.environ.get('VERIF_SEED', '0') or 0),
+                                         lambda *a, **k: cached, load_lock(), verbose=args.verbose, jobs=args.jobs)
+            worst = max(worst, code)
+        return worst
     if args.replay:
         from sqv import replay
         return replay.rerun(args.replay)
